@@ -25,7 +25,7 @@ import time
 import traceback
 from collections import Counter
 
-RUN_TIMEOUT_S = float(os.environ.get("VERIF_RUN_TIMEOUT", "60"))
+RUN_TIMEOUT_S = float(os.environ.get("VERIF_RUN_TIMEOUT", "40"))
 
 
 def derive_seed(master: int, index: int) -> int:
@@ -128,7 +128,10 @@ def _worker(args):
         if res.get("status") == "timeout":
             res = in_child(eng.run_seed, job, timeout=RUN_TIMEOUT_S * 3)
             if res.get("status") == "timeout":
-                res = {"status": "harness_error", "error": f"run seed={seed} hangs"}
+                # a run that does not finish is discarded and counted, never judged: the
+                # properties bound nothing about running time (that would be C02/C06)
+                res = {"status": "timeout", "counters": {"discarded_timeout": 1}}
+                agg["errors"].append({"seed": seed, "error": "run exceeded the wall timeout twice; discarded"})
         agg["runs"] += 1
         if opts.get("collect"):
             slim = {k: v for k, v in res.items() if k not in ("sample", "traceback")}
